@@ -60,8 +60,8 @@ def environments(tier):
 def plan(tier, seed):
     envs = environments(tier)
     per = (len(envs) + 15) // 16
-    return [{"shard": i, "envs": envs[i * per:(i + 1) * per], "n_plain": 12 if tier == "quick" else 40,
-             "n_fmt": 8 if tier == "quick" else 30, "reach": True} for i in range(16) if envs[i * per:(i + 1) * per]]
+    return [{"shard": i, "envs": envs[i * per:(i + 1) * per], "n_plain": 12 if tier == "quick" else 100,
+             "n_fmt": 8 if tier == "quick" else 60, "reach": True} for i in range(16) if envs[i * per:(i + 1) * per]]
 
 
 NONASCII = ("name:latin1", "name:cjk", "name:astral", "name:combining")
